@@ -63,6 +63,23 @@ Theorem C18_benign_extracted : forall (R : rpath) (archive : list member) (s : s
 Proof. exact benign_extracted. Qed.
 Print Assumptions C18_benign_extracted.
 
+(* --- 4b. A regular member REPLACES what a previous extraction (or anything else) left under its name: when its
+   name is an existing regular file in real directories, the member is accepted and the file's content becomes the
+   member's content, whatever the old content, size or dates (the owner bits of the existing file are kept).  Stated
+   for one member ([step] = filter + extraction of that member inside the loop of untar_file). *)
+Theorem C18_regular_member_replaces_content : forall all (R : rpath) (s : state) n d i c rhead ino,
+  comps n = rev (c :: rhead) -> plain (rev (c :: rhead)) ->
+  WF s -> node_at s R = Some NDir -> node_at s ((c :: rhead) ++ R) = Some (NFile ino) ->
+  exists s', step Repaired all R s (MReg n d) i = (OOk, s') /\
+             node_at s' ((c :: rhead) ++ R) = Some (NFile ino) /\
+             option_map f_data (lookup ino (files s')) = Some d.
+Proof.
+  intros all R s n d i c rhead ino E PL W DR N. exists (write_file s ino d).
+  split; [apply (step_reg_overwrite all R s n d i c rhead ino); assumption|]. split; [exact N|].
+  cbn [files write_file]. rewrite lookup_insert_eq. reflexivity.
+Qed.
+Print Assumptions C18_regular_member_replaces_content.
+
 (* --- 5. Links cannot be left behind to be used later.  A link is validated when it is created, but what it
    resolves to can change with the links created after it; untar_file therefore revalidates the links at the
    end.  Whatever the archive and whatever the outcome (extracted, refused, failed — the model's own
@@ -116,6 +133,15 @@ Proof.
   rewrite forallb_forall in H. intros m I. specialize (H m I). apply andb_true_iff in H. destruct H as [H1 H2].
   split; [apply plainb_ok; exact H1 | apply fitsb_ok; exact H2].
 Qed.
+
+(* an update extracted over a first version: same path, same size, other content — the last content is there;
+   likewise the same name twice in one archive *)
+Example C18_example_update_replaces_content :
+  let s1 := snd (untar R0 [MReg "k/records.txt" "version-1"] st0) in
+  let r2 := untar R0 [MReg "k/records.txt" "VERSION-2"] s1 in
+  fst r2 = OOk /\ lookup 4 (files (snd r2)) = Some {| f_data := "VERSION-2"; f_orw := true |}
+  /\ lookup 4 (files (snd (untar R0 [MReg "f" "AAAA"; MReg "f" "BBBB"] st0))) = Some {| f_data := "BBBB"; f_orw := true |}.
+Proof. vm_compute. repeat split. Qed.
 
 (* every hostile shape named by the property is refused before anything is written *)
 Example C18_example_hostile :
